@@ -62,6 +62,8 @@ def origin(v, env, pops, fetches, depth=0):
     """describe where a value comes from, in VM terms"""
     if not isinstance(v, tuple) or depth > 8:
         return '?'
+    if v[0] == 'lin':
+        return v[1]
     if v[0] == 'cast':
         return origin(v[1], env, pops, fetches, depth + 1)
     if v[0] == 'ref':
@@ -157,6 +159,80 @@ def counted_trip(fn, p, h, body):
     return None
 
 
+class Lin:
+    """linear form over symbolic atoms: {atom (str) or 1: coefficient}.  `L0` is the operand stack's length when the arm is entered."""
+
+    def __init__(self, d=None):
+        self.d = {k: v for k, v in (d or {}).items() if v != 0}
+
+    def __add__(self, o):
+        d = dict(self.d)
+        for k, v in o.d.items():
+            d[k] = d.get(k, 0) + v
+        return Lin(d)
+
+    def __sub__(self, o):
+        d = dict(self.d)
+        for k, v in o.d.items():
+            d[k] = d.get(k, 0) - v
+        return Lin(d)
+
+    def __eq__(self, o):
+        return isinstance(o, Lin) and self.d == o.d
+
+    def __repr__(self):
+        return ' + '.join('%s*%s' % (v, k) for k, v in sorted(self.d.items(), key=str)) or '0'
+
+
+def stack_delta_before(F, p, block_pos):
+    """net pushes minus pops on path p before the call at index block_pos of p.calls (straight pops/pushes and recognised bulk ops
+    are not needed here: only VM::pop / VM::push calls precede the values this is used for)"""
+    d = 0
+    for c in p.calls[:block_pos]:
+        if c[1] == POP:
+            d -= 1
+        elif c[1] == PUSH:
+            d += 1
+    return d
+
+
+def lin_of(F, p, v, pops, fetches, depth=0):
+    """linear form of a symbolic value in terms of L0 (stack length at arm entry), operands and opaque atoms.  Conversions that
+    keep the number (casts, From/TryFrom + `?`/unwrap, map_err) are transparent."""
+    if not isinstance(v, tuple) or depth > 16:
+        return Lin({str(v): 1})
+    k = v[0]
+    if k == 'cast':
+        return lin_of(F, p, v[1], pops, fetches, depth + 1)
+    if k == 'okval':
+        return lin_of(F, p, v[1], pops, fetches, depth + 1)
+    if k == 'int':
+        return Lin({1: v[1]})
+    if k == 'ref' and v[1] in p.env:
+        return lin_of(F, p, p.env[v[1]], pops, fetches, depth + 1)
+    if k == 'field' and v[2] == '0' and isinstance(v[1], tuple) and v[1][0] == 'binop' and v[1][1].endswith('WithOverflow'):
+        v = ('binop', v[1][1][:-12], v[1][2], v[1][3], v[1][4])
+        k = 'binop'
+    if k == 'field' and v[2] == '0' and isinstance(v[1], tuple) and v[1][0] == 'downcast' and v[1][2] in ('Continue', 'Ok', 'Some'):
+        inner = v[1][1]
+        if inner[0] == 'call' and inner[1].endswith('Try>::branch') and inner[2]:
+            return lin_of(F, p, inner[2][0], pops, fetches, depth + 1)
+        return lin_of(F, p, inner, pops, fetches, depth + 1)
+    if k == 'binop' and v[1] in ('Add', 'Sub'):
+        a, b = lin_of(F, p, v[2], pops, fetches, depth + 1), lin_of(F, p, v[3], pops, fetches, depth + 1)
+        return a + b if v[1] == 'Add' else a - b
+    if k == 'call':
+        n = v[1]
+        if n.endswith('Vec::<T, A>::len') and v[2] and _stack_ref(F, p, v[2][0]):
+            idx = next((i for i, c in enumerate(p.calls) if c[0] == v[3] and c[1] == n), None)
+            if idx is not None:
+                return Lin({'L0': 1, 1: stack_delta_before(F, p, idx)})
+        if (n.endswith(('::try_from', '::try_into', '::from', '::into', '::unwrap', '::map_err', '::expect', '::unwrap_or_default')) and v[2]) and \
+                not n.startswith('vm::') and not n.startswith('object::'):
+            return lin_of(F, p, v[2][0], pops, fetches, depth + 1)
+    return Lin({origin(v, p.env, pops, fetches): 1})
+
+
 BULK = {'::resize': 'push', '::split_off': 'pop', '::drain': 'pop', '::truncate': 'pop'}
 
 
@@ -173,16 +249,33 @@ def bulk_effect(F, p, c):
             a = a[3][0]
         else:
             return 'unknown'
+    raw = a
     a = _plain(a)
-    if a[0] != 'binop':
-        return 'unknown'
+    if a[0] != 'binop' or not ((kind == 'push' and a[1] == 'Add') or (kind == 'pop' and a[1] == 'Sub')):
+        return linear_bulk(F, p, c, kind, raw)
     if kind == 'push' and a[1] == 'Add':
         for x, y in ((a[2], a[3]), (a[3], a[2])):
             if _is_stack_len(F, p, x):
                 return ('push', y)
     if kind == 'pop' and a[1] == 'Sub' and _is_stack_len(F, p, a[2]):
         return ('pop', a[3])
-    return 'unknown'
+    return linear_bulk(F, p, c, kind, raw)
+
+
+def linear_bulk(F, p, c, kind, newlen):
+    """resize(N) / truncate(N) ... where N is not literally len() +/- k: compare N with the stack length at that point, both
+    as linear forms over the length at arm entry"""
+    idx = next((i for i, x in enumerate(p.calls) if x is c), None)
+    if idx is None:
+        return 'unknown'
+    pops = [x[0] for x in p.calls if x[1] == POP]
+    fetches = [x[0] for x in p.calls if x[1] in FETCH]
+    n = lin_of(F, p, newlen, pops, fetches)
+    cur = Lin({'L0': 1, 1: stack_delta_before(F, p, idx)})
+    diff = (n - cur) if kind == 'push' else (cur - n)
+    if 'L0' in diff.d:
+        return 'unknown'
+    return (kind, ('lin', repr(diff)))
 
 
 def vmx(ctx, config='default'):
